@@ -408,7 +408,11 @@ def run_prog(prog):
         boxchg = [[k, b1[k][0], b1[k][1]] for k in sorted(b0) if b0[k] != b1[k]]
         if newbox is not None:
             boxes[newbox[0]] = newbox[1]
-        out.append({"r": r, "exc": exc, "err_same": err0 == err1 and call0 is np.geterrcall(),
+        # whether the call raised is an observation; WHICH class / message is recorded for the replay only, never compared
+        exc_class = exc
+        if exc is not None and not exc.startswith("harness"):
+            exc = "raised"
+        out.append({"r": r, "exc": exc, "exc_class": exc_class, "err_same": err0 == err1 and call0 is np.geterrcall(),
                     "err": [err0, err1] if err0 != err1 else None,
                     "arrchg": arrchg, "boxchg": boxchg, "alias": aliases()})
         if err0 != err1:
